@@ -150,7 +150,18 @@ def header(rng, pal, nc, base=0):
     for side in ("left", "right", "top", "bottom"):
         if rng.random() < 0.2:
             kw[f"border_color_{side}"] = pick(rng, pal)
-    return [kw]
+    rows = [kw]
+    for extra_row in range(rng.choice([0, 0, 1, 2])):
+        # further header rows with colours of their own (a colour used ONLY here still has to be in the table)
+        kw2 = {"text": [f"H{base + 1 + extra_row}c{j}" for j in range(nc)]}
+        if rng.random() < 0.7:
+            kw2["text_color"] = [pick(rng, pal) for _ in range(nc)] if rng.random() < 0.6 else pick(rng, pal)
+        if rng.random() < 0.4:
+            kw2["text_background_color"] = pick(rng, pal)
+        if rng.random() < 0.3:
+            kw2[f"border_color_{rng.choice(['left', 'right', 'top', 'bottom'])}"] = pick(rng, pal)
+        rows.append(kw2)
+    return rows
 
 
 def common_parts(rng, spec, pal, figure=False):
